@@ -55,6 +55,14 @@ CHECKS = {
          "Complete ordered-pair matrix of (back end, kind) parsers over library-produced strings of every kind with the expectation computed from the specification's header table; header rewriting of authenticated blobs must fail to unwrap.",
          "Source strings per kind are sampled (5 quick / 50 thorough per back end); the parser matrix itself is complete.",
          "enumerated cross-acceptance matrix over generated values, header-table oracle", "DESIGN.md §5 C10"),
+ "C11": ("pv-harness", "exploration",
+         "Generated claims on and 1 ns beside every time boundary x generated validator expression trees (all combinators, depth <= 3) against an independent i128-nanosecond evaluator; end to end on every back end: unseal releases the claims iff the evaluator accepts, else ClaimsError.",
+         "Trusts jiff's Timestamp construction from nanoseconds; Time::valid_now() is exercised with whole-day margins only.",
+         "property-based testing (proptest) against an independent evaluator of generated validator expressions", "DESIGN.md §5 C11"),
+ "C14": ("pv-harness", "exploration",
+         "Generated RegisteredClaims round-trip field-wise; the wire form is checked with a generic JSON parser and an own strict RFC 3339 reader; generated JSON texts (extras, order, duplicates, nulls, wrong types, offsets, fractions) are decoded differentially against serde_json::Value with instants computed by the generator; Json<T> is compared with serde_json directly.",
+         "Trusts serde_json::Value as the generic parser; leap seconds are not generated.",
+         "property-based round-trip + differential testing (proptest) against a generic JSON parser", "DESIGN.md §5 C14"),
 }
 
 NOT_APPLICABLE = []  # filled while properties are still being built
